@@ -634,10 +634,12 @@ def entry_points(dtype=np.float64, seed=0):
     # CPTensor.normalize() / TuckerTensor.normalize() are mutator methods: their docstrings say "the tensor modifies itself" /
     # "Transforms the tucker_tensor ...", i.e. the receiver is a parameter documented as updated in place
     simple("cp_normalize_method", lambda cp: cp.normalize(), lambda d: (cpt(d),), inplace=[0], skel=("KCpNormalizeMethod", [0]))
-    # GENUINE DEFECT (round 5, known finding cp_normalize_inplace_false): normalize(inplace=False) is documented to return a normalised
-    # copy; the code ignores the option.  The receiver is PROTECTED here; the skeleton models the code as it is (Props
-    # C15_cp_normalize_inplace_false_refuted / _partial), so Coq agrees with the observation and the Python predicate reports it.
-    simple("cp_normalize_method_inplace_false", lambda cp: cp.normalize(inplace=False), lambda d: (cpt(d),), skel=("KCpNormalizeMethod", [0]), ep="tensorly.cp_tensor.CPTensor.normalize")
+    # CPTensor.normalize(inplace=...): the option was ignored until fix 9ada0b3 (found by this check in round 5).  inplace=False returns a
+    # normalised copy - the receiver is PROTECTED (skeleton sk_cp_normalize_method_copy, Props C15_cp_normalize_method_inplace_false_frame);
+    # inplace=True (and the default) is the documented mutator above
+    simple("cp_normalize_method_inplace_false", lambda cp: cp.normalize(inplace=False), lambda d: (cpt(d),), skel=("KCpNormalizeMethodCopy", [0]))
+    simple("cp_normalize_method_inplace_false_then_true", lambda cp: (cp.normalize(inplace=False), cp.normalize(inplace=True), cp.normalize(inplace=False)), lambda d: (cpt(d),), inplace=[0])
+    simple("cp_normalize_method_inplace_true_explicit", lambda cp: cp.normalize(inplace=True), lambda d: (cpt(d),), inplace=[0], skel=("KCpNormalizeMethod", [0]))
     simple("cp_mode_dot_copy_matrix", lambda cp, Mx: cp_mode_dot(cp, Mx, 1, copy=True), lambda d: (cpt(d), d.mat))
     simple("cp_mode_dot_copy_matrix_tuple", lambda cp, Mx: cp_mode_dot(cp, Mx, 1, copy=True), lambda d: ((d.w, d.fs), d.mat))
     simple("cp_mode_dot_copy_vector", lambda cp, v: cp_mode_dot(cp, v, 1, copy=True), lambda d: (cpt(d), d.vec), skel=("KModeDotCopy", [0, 1]))
@@ -872,8 +874,28 @@ def entry_points(dtype=np.float64, seed=0):
     simple("CP_NN_HALS_receiver_fit_transform", lambda est, X: est.fit_transform(X), lambda d: (CP_NN_HALS(R, n_iter_max=2, init=(d.w1, d.fs), sparsity_coefficients=[0.1, None, 0.1], fixed_modes=[0]), d.X), inplace=[0], skel=(chk_name, [0, 1]))
     simple("Tucker_receiver_fit_transform", lambda est, X: est.fit_transform(X), lambda d: (Tucker([2, 2, 2], n_iter_max=2, init=(d.core, d.tf), mask=d.mask), d.X), inplace=[0], skel=(ctk_name, [0, 1]))
     simple("Tucker_receiver_fit_transform_obj", lambda est, X: est.fit(X), lambda d: (Tucker([2, 2, 2], n_iter_max=2, init=TuckerTensor((d.core, d.tf))), d.X), inplace=[0], skel=(ctk_name, [0, 1]))
-    simple("CP_PLSR_receiver_fit", lambda est, X, Y: est.fit(X, Y), lambda d: (CP_PLSR(2, random_state=sd), d.X, d.Y2), inplace=[0])
-    simple("CPRegressor_receiver_fit", lambda est, X, y: est.fit(X, y), lambda d: (CPRegressor(2, random_state=sd, verbose=0, n_iter_max=3), d.X, d.y), inplace=[0])
+    # round 6: every other estimator kind - receiver skeleton with an opaque body (Props C15_any_estimator_fit_frame): EXACTLY the receiver changes
+    def ek_name(args):
+        est = args[0]
+        return f"(KEstimatorFit {sum(1 for a_ in ('init', 'sparsity_coefficients', 'fixed_modes', 'mask') if a_ in vars(est))}%nat)"
+    EK = (ek_name, [0, 1])
+    simple("CP_PLSR_receiver_fit", lambda est, X, Y: est.fit(X, Y), lambda d: (CP_PLSR(2, random_state=sd), d.X, d.Y2), inplace=[0], skel=EK)
+    simple("CPRegressor_receiver_fit", lambda est, X, y: est.fit(X, y), lambda d: (CPRegressor(2, random_state=sd, verbose=0, n_iter_max=3), d.X, d.y), inplace=[0], skel=EK)
+    simple("TuckerRegressor_receiver_fit", lambda est, X, y: est.fit(X, y), lambda d: (TuckerRegressor([2, 2], random_state=sd, verbose=0, n_iter_max=3), d.X, d.y), inplace=[0], skel=EK)
+    simple("CP_NN_receiver_fit_transform", lambda est, X: est.fit_transform(X), lambda d: (CP_NN(R, n_iter_max=2, init=(d.w, d.fs), fixed_modes=[0], mask=d.mask), d.X), inplace=[0], skel=(ck_name, [0, 1]))
+    simple("RandomizedCP_receiver_fit_transform", lambda est, X: est.fit_transform(X), lambda d: (RandomizedCP(R, 8, n_iter_max=2, init=(d.w, d.fs), random_state=sd, verbose=0), d.X), inplace=[0], skel=EK)
+    simple("ConstrainedCP_receiver_fit_transform", lambda est, X: est.fit_transform(X), lambda d: (ConstrainedCP(R, n_iter_max=2, init=cpt(d), fixed_modes=[0, 2], l1_reg=[0.1, 0.2, 0.3]), d.X), inplace=[0], skel=EK)
+    simple("Parafac2_receiver_fit_transform", lambda est, sl: est.fit_transform(sl), lambda d: (Parafac2(R, n_iter_max=3, init=p2t(d, d.w1), nn_modes=[0]), d.slices), inplace=[0], skel=EK)
+    simple("Tucker_NN_receiver_fit_transform", lambda est, X: est.fit_transform(X), lambda d: (Tucker_NN([2, 2, 2], n_iter_max=2, init=(d.core, d.tf)), d.X), inplace=[0], skel=EK)
+    simple("Tucker_NN_HALS_receiver_fit_transform", lambda est, X: est.fit_transform(X), lambda d: (Tucker_NN_HALS([2, 2, 2], n_iter_max=2, init=(d.core, d.tf), sparsity_coefficients=[0.1, None, 0.1], fixed_modes=[2]), d.X), inplace=[0], skel=EK)
+    simple("CPPower_receiver_fit", lambda est, X: est.fit(X), lambda d: (CPPower(R, n_repeat=2, n_iteration=2), d.X), inplace=[0], skel=EK)
+    simple("SymmetricCP_receiver_fit", lambda est, X: est.fit(X), lambda d: (SymmetricCP(R, n_repeat=2, n_iteration=2), d.rs.rand(3, 3, 3).astype(dtype)), inplace=[0], skel=EK)
+    simple("TensorTrain_receiver_fit", lambda est, X: est.fit(X), lambda d: (TensorTrain([1, 2, 2, 1]), d.X), inplace=[0], skel=EK)
+    simple("TensorTrainMatrix_receiver_fit", lambda est, Y: est.fit(Y), lambda d: (TensorTrainMatrix([1, 2, 1]), d.rs.rand(2, 3, 2, 3).astype(dtype)), inplace=[0], skel=EK)
+    simple("TensorRing_receiver_fit", lambda est, X: est.fit(X), lambda d: (TensorRing([2, 2, 2, 2]), d.X), inplace=[0], skel=EK)
+    simple("TensorRingALS_receiver_fit", lambda est, X: est.fit(X), lambda d: (TensorRingALS([2, 2, 2, 2], n_iter_max=2, random_state=sd), d.X), inplace=[0], skel=EK)
+    simple("TensorRingALSSampled_receiver_fit", lambda est, X: est.fit(X), lambda d: (TensorRingALSSampled([2, 2, 2, 2], 10, n_iter_max=2, random_state=sd), d.X), inplace=[0], skel=EK)
+    simple("TensorTrain_OI_receiver_fit", lambda est, X: est.fit(X), lambda d: (TensorTrain_OI([1, 2, 2, 1], 1, False, True), d.X), inplace=[0], skel=EK)
     def _fitted(m, *a):
         m.fit(*a)
         return m
@@ -954,6 +976,36 @@ def entry_points(dtype=np.float64, seed=0):
     simple("options_regressor_tolerances", lambda X, y, Y: (CPRegressor(2, tol=1e-3, random_state=sd, verbose=0, n_iter_max=3).fit(X, y).predict(X), TuckerRegressor([2, 2], tol=1e-3, random_state=sd, verbose=0, n_iter_max=3).fit(X, y).predict(X),
                                                            CP_PLSR(2, n_iter_max=5, tol=1e-3, random_state=sd).fit(X, Y).predict(X), tensor_train_cross(X, [1, 2, 2, 1], tol=1e-2, n_iter_max=3, random_state=sd)),
            lambda d: (d.X, d.y, d.Y2))
+    # ---------------------------------------------------------------- round 6: entry points that CATCH exceptions (Corr.C15.try_of: the proved check
+    # safe_tryprog is evaluated on (pre, try body, handler, rest); the handler really runs when the solve fails / the modes are scalars /
+    # an injected exception lands inside the protected statements)
+    TA = ("KTryActiveSet", [0, 1, 2])
+    simple("try_active_set_singular_warm", lambda a, b, x: active_set_nnls(a, b, x, n_iter_max=3), lambda d: (asb(d), np.ones((4, 4), dtype=dtype), asx(d)), skel=TA)
+    simple("try_active_set_singular_zero_start", lambda a, b, x: active_set_nnls(a, b, x, n_iter_max=3), lambda d: (asb(d), np.zeros((4, 4), dtype=dtype), np.zeros(4, dtype=dtype)), skel=TA)
+    simple("try_active_set_nan_gram", lambda a, b, x: active_set_nnls(a, b, x, n_iter_max=2), lambda d: (asb(d), np.full((4, 4), np.nan, dtype=dtype), asx(d)), skel=TA)
+    simple("try_active_set_regular", lambda a, b, x: active_set_nnls(a, b, x), lambda d: (asb(d), asU(d), asx(d)), skel=TA)
+    simple("try_entropy", lambda M: vonneumann_entropy(M), lambda d: (d.UtU / np.trace(d.UtU),), skel=("KTryEntropy", [0]))
+    simple("try_entropy_nan", lambda M: vonneumann_entropy(M), lambda d: (np.full((3, 3), np.nan, dtype=dtype),), skel=("KTryEntropy", [0]))
+    simple("try_matricize_scalar_modes", lambda X, rm, cm: matricize(X, rm, cm), lambda d: (d.X, 1, [0, 2]), skel=("KTryModesToList", [0, 1, 2]))
+    simple("try_matricize_list_modes", lambda X, rm, cm: matricize(X, rm, cm), lambda d: (d.X, [1], [2, 0]), skel=("KTryModesToList", [0, 1, 2]))
+    simple("try_tensordot_scalar_mode_pair", lambda X, Yt, mo: tenalg.tensordot(X, Yt, modes=mo), lambda d: (d.X, d.rs.rand(3, 5, 2).astype(dtype), (1, 0)))
+    simple("try_tt_cross", lambda X, r: tensor_train_cross(X, r, random_state=sd), lambda d: (d.X, [1, 2, 2, 1]), skel=("KTryTtCross", [0, 1]))
+    # ---------------------------------------------------------------- round 6: every in-place-style flag of the library, modelled both ways
+    # (FLAG_MODEL below; measured per run).  Method forms of the mode products, with their own defaults (CPTensor.mode_dot: copy=True,
+    # TuckerTensor.mode_dot: copy=False); the wrapper constructors whose `inplace` flag is unused
+    simple("flag_cp_method_mode_dot_default_copy", lambda cp, v: cp.mode_dot(v, 1), lambda d: (cpt(d), d.vec), skel=("KModeDotCopy", [0, 1]))
+    simple("flag_cp_method_mode_dot_copy_false_vector", lambda cp, v: cp.mode_dot(v, 1, copy=False), lambda d: (cpt(d), d.vec), inplace=[0], skel=("KModeDotVecInplace", [0, 1]))
+    simple("flag_cp_method_mode_dot_copy_false_matrix", lambda cp, Mx: cp.mode_dot(Mx, 1, copy=False), lambda d: (cpt(d), d.mat), inplace=[0], skel=("KModeDotMatInplace", [0, 1]))
+    simple("flag_tucker_method_mode_dot_default_vector", lambda t, v: t.mode_dot(v, 1), lambda d: (tkt(d), d.vec), inplace=[0], skel=("KTuckerModeDotVecInplace", [0, 1]))
+    simple("flag_tucker_method_mode_dot_default_matrix", lambda t, Mx: t.mode_dot(Mx, 1), lambda d: (tkt(d), d.mat), inplace=[0], skel=("KTuckerModeDotMatInplace", [0, 1]))
+    simple("flag_tucker_method_mode_dot_copy_true", lambda t, v: t.mode_dot(v, 1, copy=True), lambda d: (tkt(d), d.vec), skel=("KTuckerModeDotCopy", [0, 1]))
+    simple("flag_cp_mode_dot_default_is_inplace", lambda cp, v: cp_mode_dot(cp, v, 1), lambda d: (cpt(d), d.vec), inplace=[0], skel=("KModeDotVecInplace", [0, 1]))
+    WC = ("KWrapperCtor", [0])
+    simple("flag_tt_ctor_inplace_false", lambda f: TTTensor(f, inplace=False), lambda d: (ttf(d),), skel=WC)
+    simple("flag_tt_ctor_inplace_true", lambda f: TTTensor(f, inplace=True), lambda d: (ttf(d),), skel=WC)
+    simple("flag_ttm_ctor_inplace_false", lambda g: TTMatrix(g, inplace=False), lambda d: (ttm(d),), skel=WC)
+    simple("flag_ttm_ctor_inplace_true", lambda g: TTMatrix(g, inplace=True), lambda d: (ttm(d),), skel=WC)
+    simple("flag_tr_ctor", lambda g: TRTensor(g), lambda d: (trf(d),), skel=WC)
     simple("index_update_fail_shape", lambda X, v: tl.index_update(X, tl.index[:, 1], v), lambda d: (d.rs.rand(3, 2).astype(dtype), d.rs.rand(5).astype(dtype) + 2), inplace=[0], skel=("KIndexUpdate", [0, 1]))
     return E
 
@@ -970,7 +1022,10 @@ def fuzz_spec(fseed, dtype=np.float64):
     from tensorly.parafac2_tensor import Parafac2Tensor
     r = random.Random(fseed)
     rs = np.random.RandomState(fseed % (2 ** 31))
-    E = entry_points(dtype, 0)        # only for the skeleton-name builders stored in the table
+    key = (np.dtype(dtype).str, 0)    # only for the skeleton-name builders stored in the table (cached)
+    if key not in _EP_CACHE:
+        _EP_CACHE[key] = entry_points(dtype, 0)
+    E = _EP_CACHE[key]
     pk = E["parafac_init_tuple"]()["skel"]; hk = E["nn_parafac_hals_init"]()["skel"]; tk = E["tucker_init"]()["skel"]
     algo = r.choice(["parafac", "parafac", "nn_parafac", "nn_parafac_hals", "nn_parafac_hals", "constrained", "tucker", "tucker",
                      "nn_tucker", "nn_tucker_hals", "parafac2", "randomised_parafac"])
@@ -1191,6 +1246,7 @@ class Extractor:
                             if isinstance(m, ast.FunctionDef):
                                 self.funcs.setdefault(f"{node.name}.{m.name}", m)
         self.scope_counter = 0
+        self.attr_slots = {}       # receiver-object mode: attribute name -> slot of the receiver cell
 
     # ------------------------------------------------------------------ helpers
     def note(self, what):
@@ -1202,6 +1258,8 @@ class Extractor:
             return ("c", node.value)
         if isinstance(node, ast.Name) and node.id in sc.consts:
             return ("c", sc.consts[node.id])
+        if isinstance(node, ast.Attribute) and isinstance(node.value, ast.Name) and node.value.id == "self" and ("self." + node.attr) in getattr(sc, "consts", {}):
+            return ("c", sc.consts["self." + node.attr])
         if isinstance(node, ast.UnaryOp) and isinstance(node.op, ast.USub):
             c = self.const_of(sc, node.operand)
             if c and isinstance(c[1], (int, float)):
@@ -1298,7 +1356,7 @@ class Extractor:
             if node.id in sc.vars or node.id not in sc.consts:
                 return sc.var(node.id)
         sv = self.self_var(sc, node)
-        if sv is not None:
+        if sv is not None and not (sc.consts.get("__self__") == "object" and ("self." + node.attr) not in getattr(sc, "self_assigned", set())):
             return sv
         t = sc.tmp()
         out.append(self.expr_to(sc, t, node))
@@ -1339,6 +1397,12 @@ class Extractor:
         if isinstance(node, ast.Attribute):
             sv = self.self_var(sc, node)
             if sv is not None:
+                # round 6, receiver-object mode (option set key "__self__"): an attribute that this method has not assigned yet is READ
+                # FROM THE RECEIVER (a reference the caller's estimator holds: protected); assignments to self.attr stay local
+                # rebindings (the receiver of fit / fit_transform is documented as updated)
+                if sc.consts.get("__self__") == "object" and ("self." + node.attr) not in getattr(sc, "self_assigned", set()):
+                    idx = self.attr_slots.setdefault(node.attr, len(self.attr_slots))
+                    return prim("ListGet", t, sc.var("self"), idx)
                 return prim("Rebind", t, sv)
             if node.attr == "T":
                 y = self.base_var(sc, node.value, out)
@@ -1470,7 +1534,11 @@ class Extractor:
                 out.append(prim("View", t, y)); return seqn(*out)
             out.append(prim("Alloc", t)); return seqn(*out)
         if len(name) == 3 and name[0] == "self" and "self" in sc.params:     # self.attr.method(...)
-            y = sc.var("self." + name[1])
+            if sc.consts.get("__self__") == "object" and ("self." + name[1]) not in getattr(sc, "self_assigned", set()):
+                y = sc.tmp()        # receiver-object mode: the object the receiver holds
+                out.append(prim("ListGet", y, sc.var("self"), self.attr_slots.setdefault(name[1], len(self.attr_slots))))
+            else:
+                y = sc.var("self." + name[1])
             if last in LIST_STORE_METHODS and node.args:
                 v = self.base_var(sc, node.args[-1], out)
                 out.append(prim("ListAppend", y, v))
@@ -1591,6 +1659,9 @@ class Extractor:
         if isinstance(target, ast.Attribute):
             sv = self.self_var(sc, target)
             if sv is not None:
+                if not hasattr(sc, "self_assigned"):
+                    sc.self_assigned = set()
+                sc.self_assigned.add("self." + target.attr)
                 return prim("Rebind", sv, v)
             y = self.base_var(sc, target.value, out)
             if target.attr in ("shape", "rank"):          # tuples of ints: no references inside
@@ -2103,13 +2174,38 @@ ENTRIES += [
     ("unfolding_dot_khatri_rao", {}, [dict()]), ("multi_mode_dot", {}, [dict(modes=U, skip=U, transpose=U)]), ("mode_dot", {}, [dict(transpose=U)]),
     ("kronecker", {}, [dict(skip_matrix=U, reverse=U)]), ("sample_khatri_rao", {}, [dict(indices_list=U, skip_matrix=U, return_sampled_rows=U)]),
     ("congruence_coefficient", {}, [dict()]), ("correlation_index", {}, [dict()]), ("make_svd_non_negative", {}, [dict(nntype=U)]),
-    ("Tucker.fit_transform", {}, [dict()]), ("Parafac2.fit_transform", {}, [dict()]), ("DecompositionMixin.fit", {}, [dict()]),
+    ("DecompositionMixin.fit", {}, [dict()]),
+]
+# round 6: estimator methods in RECEIVER-OBJECT mode (option-set key "__self__"): an attribute the method has not assigned is read from
+# the receiver (a reference the caller's estimator holds - protected like every argument), `self.attr = ..` stays a local rebinding
+# (the receiver of fit / fit_transform is documented as updated), the decomposition function is inlined with the options bound through
+# "self.<option>" constants.  Accepted = nothing the estimator holds (init, fixed_modes, mask, coefficient lists ...) is written through.
+_OBJ = {"__self__": "object"}
+ENTRIES += [
+    ("CP.fit_transform", {}, [dict(_OBJ, **{"self.init": USER, "self.fixed_modes": NN, "self.mask": NN, "self.tol": NN, "self.normalize_factors": False, "self.orthogonalise": False,
+                                            "self.sparsity": None, "self.l2_reg": 0, "self.linesearch": False, "self.callback": None, "self.verbose": 0, "self.cvg_criterion": "abs_rec_error",
+                                            "self.svd": "truncated_svd", "self.random_state": None, "self.svd_mask_repeats": 5, "self.n_iter_max": NN})]),
+    ("CP_NN.fit_transform", {}, [dict(_OBJ, **{"self.init": USER, "self.fixed_modes": NN, "self.mask": NN, "self.tol": NN, "self.normalize_factors": False, "self.verbose": 0,
+                                               "self.cvg_criterion": "abs_rec_error", "self.svd": "truncated_svd", "self.random_state": None})]),
+    ("CP_NN_HALS.fit_transform", {}, [dict(_OBJ, **{"self.init": USER, "self.sparsity_coefficients": NN, "self.fixed_modes": NN, "self.tol": NN, "self.normalize_factors": False, "self.nn_modes": "all",
+                                                    "self.exact": False, "self.verbose": 0, "self.cvg_criterion": "abs_rec_error", "self.svd": "truncated_svd", "self.random_state": None})]),
+    ("RandomizedCP.fit_transform", {}, [dict(_OBJ, **{"self.init": USER, "self.tol": NN})]),
+    ("ConstrainedCP.fit_transform", {}, [dict(_OBJ, **{"self.init": USER, "self.fixed_modes": NN})]),
+    ("Parafac2.fit_transform", {}, [dict(_OBJ, **{"self.init": USER})]),
+    ("Tucker.fit_transform", {}, [dict(_OBJ, **{"self.init": USER, "self.mask": NN, "self.tol": NN, "self.fixed_factors": None, "self.verbose": 0, "self.return_errors": False,
+                                                "self.svd": "truncated_svd", "self.random_state": None})]),
+    ("Tucker_NN.fit_transform", {}, [dict(_OBJ, **{"self.init": USER, "self.tol": NN})]),
+    ("Tucker_NN_HALS.fit_transform", {}, [dict(_OBJ, **{"self.init": USER, "self.sparsity_coefficients": NN, "self.fixed_modes": NN, "self.tol": NN})]),
+    ("CPRegressor.fit", {}, [dict(_OBJ)]), ("TuckerRegressor.fit", {}, [dict(_OBJ)]), ("CP_PLSR.fit", {}, [dict(_OBJ)]),
+    ("CPTensor.normalize", {}, [dict(_OBJ, inplace=False), dict(_OBJ, inplace=True)]),
 ]
 # negative controls: the analysis must REJECT these (documented in-place parameter not flagged)
 NEGATIVE = [("hals_nnls", {}, dict(V=NN)), ("cp_mode_dot", {}, dict(copy=False)), ("tucker_mode_dot", {}, dict(copy=False))]
 INLINE = {"initialize_cp", "error_calc", "sparsify_tensor", "cp_normalize", "initialize_tucker", "partial_tucker", "hals_nnls", "fista", "active_set_nnls",
           "initialize_constrained_parafac", "initialize_decomposition", "parafac", "non_negative_parafac_hals", "process_regularization_weights",
-          "cp_flip_sign", "parafac2_to_slice", "admm", "tucker_normalize", "_compute_projections", "_project_tensors", "cp_mode_dot", "tucker_mode_dot"}
+          "cp_flip_sign", "parafac2_to_slice", "admm", "tucker_normalize", "_compute_projections", "_project_tensors", "cp_mode_dot", "tucker_mode_dot",
+          # round 6: inlined into the estimator methods
+          "tucker", "non_negative_parafac", "non_negative_tucker_hals", "constrained_parafac", "parafac2", "randomised_parafac", "non_negative_tucker"}
 
 
 STATIC_CAP = 40000        # paths per extracted skeleton evaluated inside Coq; larger ones are retried with one sweep, then skipped and counted
@@ -2201,6 +2297,21 @@ def tl_dir():
 
 SURFACE_DEFAULTS = {}    # code object -> {parameter: default} of the public callables (parameters WITH a default = the options)
 PARAMS_VARIED = set()    # (qualified name, parameter) seen with a non-default value at the entry of the callable
+FLAG_NAMES = ("inplace", "copy", "overwrite", "out", "overwrite_a", "in_place")
+FLAG_SEEN = {}           # (qualified name, flag parameter) -> set of values (as repr) seen at the entry of the callable
+# every in-place-style option of the audited packages and how BOTH of its values are modelled (skeleton kinds of Corr.C15 / theorems)
+FLAG_MODEL = {
+    "tensorly.cp_tensor.CPTensor.normalize(inplace)": {"True": "KCpNormalizeMethod, receiver flagged (C15_cp_normalize_method_frame)",
+                                                       "False": "KCpNormalizeMethodCopy, receiver protected (C15_cp_normalize_method_inplace_false_frame)"},
+    "tensorly.cp_tensor.cp_mode_dot(copy)": {"True": "KModeDotCopy, protected (C15_modelled_entry_points_safe_each)",
+                                             "False": "KModeDotVecInplace / KModeDotMatInplace, cp_tensor flagged (C15_cp_mode_dot_copy_false_inplace / _frame)"},
+    "tensorly.cp_tensor.CPTensor.mode_dot(copy)": {"True": "KModeDotCopy (the method's default)", "False": "KModeDotVecInplace / KModeDotMatInplace, receiver flagged"},
+    "tensorly.tucker_tensor.tucker_mode_dot(copy)": {"True": "KTuckerModeDotCopy, protected", "False": "KTuckerModeDotVecInplace / KTuckerModeDotMatInplace, tucker_tensor flagged (C15_tucker_mode_dot_index_update_inplace / _frame)"},
+    "tensorly.tucker_tensor.TuckerTensor.mode_dot(copy)": {"True": "KTuckerModeDotCopy", "False": "KTuckerModeDotVecInplace / KTuckerModeDotMatInplace (the method's default), receiver flagged"},
+    "tensorly.tt_tensor.TTTensor.__init__(inplace)": {"True": "KWrapperCtor: the flag is unused and undocumented, the constructor stores the caller's list and writes nothing (C15_wrapper_ctor_safe)",
+                                                      "False": "KWrapperCtor: same code path"},
+    "tensorly.tt_matrix.TTMatrix.__init__(inplace)": {"True": "KWrapperCtor (flag unused)", "False": "KWrapperCtor (flag unused)"},
+}
 SURFACE = {}         # code object -> qualified name of a public callable of the audited packages (filled by public_surface)
 SURFACE_HIT = {}     # qualified name -> first configuration that executed it
 CALL_COUNTS = {}     # (configuration, dtype, data seed) -> number of internal function calls of an uninterrupted "fresh" run
@@ -2225,6 +2336,9 @@ class Tracer:
             dfl = SURFACE_DEFAULTS.get(code)
             if dfl:
                 loc = frame.f_locals
+                for p_ in dfl:
+                    if p_ in FLAG_NAMES and p_ in loc:
+                        FLAG_SEEN.setdefault((q, p_), set()).add(repr(loc[p_]))
                 for p_, d_ in dfl.items():
                     if (q, p_) not in PARAMS_VARIED and p_ in loc:
                         v_ = loc[p_]
@@ -2288,6 +2402,9 @@ def public_surface():
     return out, failed
 
 
+_EP_CACHE = {}
+
+
 def run_config(name, variant, dtype, seed):
     """-> dict(outcome, changed=[(oid, path, what)], heap, spec, allowed) or None if the configuration does not exist.
     variant "kind!k": the call is made to raise at its k-th internal function call (an exception half-way)"""
@@ -2296,7 +2413,12 @@ def run_config(name, variant, dtype, seed):
     if name.startswith("fuzz:"):
         spec = fuzz_spec(int(name[5:]), np.dtype(dtype).type)
     else:
-        E = entry_points(np.dtype(dtype).type, seed)
+        key = (np.dtype(dtype).str, seed)        # the table of builders is cached; every builder call creates fresh data
+        if key not in _EP_CACHE:
+            if len(_EP_CACHE) > 8:
+                _EP_CACHE.clear()
+            _EP_CACHE[key] = entry_points(np.dtype(dtype).type, seed)
+        E = _EP_CACHE[key]
         if name not in E:
             return None
         spec = E[name]()
@@ -2451,13 +2573,7 @@ def prw_caller_lists_rewritten(f):
     return f["inputs"].get("config", "").startswith("process_regularization_weights") and "arg" in f["message"]
 
 
-def cp_normalize_inplace_false_mutates_receiver(f):
-    """known finding: CPTensor.normalize(inplace=False) assigns self.weights / self.factors although a copy is documented"""
-    return f["inputs"].get("config", "") == "cp_normalize_method_inplace_false" and "arg0" in f["message"]
-
-
-CLASSIFIERS = {"prw_caller_lists_rewritten": prw_caller_lists_rewritten,
-               "cp_normalize_inplace_false_mutates_receiver": cp_normalize_inplace_false_mutates_receiver}
+CLASSIFIERS = {"prw_caller_lists_rewritten": prw_caller_lists_rewritten}
 
 
 def run(chk):
@@ -2478,7 +2594,7 @@ def run(chk):
     t_impl = time.time()
     try:        # surface audit: which public callables of the anchored packages does the table execute (measured on every run)
         surf, surf_failed = public_surface()
-        SURFACE.clear(); SURFACE.update(surf); SURFACE_HIT.clear(); CALL_COUNTS.clear(); PARAMS_VARIED.clear()
+        SURFACE.clear(); SURFACE.update(surf); SURFACE_HIT.clear(); CALL_COUNTS.clear(); PARAMS_VARIED.clear(); FLAG_SEEN.clear()
     except Exception as e:
         surf_failed = [f"{type(e).__name__}: {e}"[:200]]
     todo = list(plan(chk.tier, rng))
@@ -2557,6 +2673,19 @@ def run(chk):
         chk.cov["public_surface"]["options_total"] = len(allp)
         chk.cov["public_surface"]["options_never_given_a_non_default_value"] = unvaried
         chk.notes.append(f"public options (parameters with a default, verbose / random_state aside): {len(allp) - len(unvaried)} of {len(allp)} seen with a non-default value")
+        # in-place-style flags: every one must be in FLAG_MODEL (both values modelled) and both values must have been exercised
+        flags_found = sorted({f"{SURFACE[c]}({p_})" for c, d_ in SURFACE_DEFAULTS.items() if c in SURFACE for p_ in d_ if p_ in FLAG_NAMES})
+        seen = {f"{q}({p_})": sorted(v) for (q, p_), v in FLAG_SEEN.items()}
+        chk.cov["inplace_style_flags"] = {k_: {"values_exercised": seen.get(k_, []), "model": FLAG_MODEL.get(k_)} for k_ in flags_found}
+        for k_ in flags_found:
+            if k_ not in FLAG_MODEL:
+                chk.broken.append({"what": "in-place-style option without a model (harness/props/C15.py FLAG_MODEL)", "detail": k_})
+            elif not {"True", "False"} <= set(seen.get(k_, [])):
+                chk.broken.append({"what": "in-place-style option not exercised with both values", "detail": f"{k_}: {seen.get(k_, [])}"})
+        for k_ in FLAG_MODEL:
+            if k_ not in flags_found:
+                chk.broken.append({"what": "modelled in-place-style option no longer exists in the library (FLAG_MODEL is stale)", "detail": k_})
+        chk.notes.append(f"in-place-style flags: {len(flags_found)} found, all modelled both ways and exercised with both values" if not any("in-place-style" in b["what"] for b in chk.broken) else "in-place-style flags: see broken")
         chk.notes.append(f"public surface: {len(allq) - len(missing)} of {len(allq)} public callables executed by the table" +
                          (f"; NOT executed: {', '.join(missing[:12])}" if missing else ""))
     builder.join()
